@@ -49,7 +49,7 @@ _STATES = re.compile(r'(\d+) states generated, (\d+) distinct states found')
 def run_tlc(module, cfg, workdir, env=None, workers=1, timeout=3600, extra_args=(), xmx='2g', simulate=None):
     """Run TLC on spec/<module>.tla with spec/<cfg>; return dict(out, states, distinct, ok, rc)."""
     meta = tempfile.mkdtemp(prefix='meta-', dir=workdir)
-    cmd = ['java', f'-Xmx{xmx}', '-XX:+UseParallelGC', '-XX:ParallelGCThreads=2', '-Xss64m', '-Dfile.encoding=UTF-8', '-Dstdout.encoding=UTF-8',
+    cmd = ['java', f'-Xmx{xmx}', '-XX:+UseParallelGC', '-XX:ParallelGCThreads=2', '-Xss64m', '-Dfile.encoding=UTF-8', '-Dstdout.encoding=UTF-8', '-Dtlc2.tool.queue.IStateQueue=MemStateQueue',
            '-cp', TLA_CP, 'tlc2.TLC', '-workers', str(workers), '-metadir', meta, '-noGenerateSpecTE',
            '-config', cfg]
     cmd += list(extra_args)
@@ -179,6 +179,8 @@ class Verdict:
 
 
 def write_evidence(prop, tier, seed, coverage, wall, violations, assumptions, level='model_checking'):
+    if os.environ.get('VERIF_NO_EVIDENCE'):
+        return None      # selftests run the checks against scratch copies: never touch the evidence of /repo
     os.makedirs(EVIDENCE, exist_ok=True)
     doc = {'property_id': prop, 'tier': tier, 'seed': int(seed), 'level': level, 'coverage': coverage,
            'assumptions': assumptions, 'wall_s': round(wall, 2), 'violations': int(violations)}
